@@ -427,12 +427,15 @@ class Coverage:
         self.det_runs = 0
         self.samples: list = []
         self.obs_after_fault = 0
+        self.profiles: dict = {}
         self.lock = threading.Lock()
 
     def add(self, r: dict):
         plan, res = r["plan"], r["res"]
         with self.lock:
             self.runs += 1
+            pk = str(plan.get("profile") or "generic")
+            self.profiles[pk] = self.profiles.get(pk, 0) + 1
             self.hashseed_pairs.add(tuple(r["hs"]))
             ren: dict = {}
             sig = []
